@@ -1969,8 +1969,13 @@ func (cs *ConditionsSet) SubQueries() []string {
 		if len(needed) == 0 {
 			return filters, []string{wantedSubQuery}
 		}
-		bestOrder := []string(nil)
-		bestFilters := uint(0)
+		// all needed sub queries have to be evaluated before the wanted one, the ones with the most filters first
+		type resolution struct {
+			subQuery string
+			filters  uint
+			order    []string
+		}
+		resolutions := []resolution(nil)
 		for sq := range needed {
 			newForbidden := map[string]struct{}{}
 			for f := range forbidden {
@@ -1978,13 +1983,26 @@ func (cs *ConditionsSet) SubQueries() []string {
 			}
 			newForbidden[wantedSubQuery] = struct{}{}
 			curFilters, resolutionOrder := resolve(sq, newForbidden)
-			if bestFilters > curFilters {
-				continue
-			}
-			bestFilters = curFilters
-			bestOrder = resolutionOrder
+			resolutions = append(resolutions, resolution{sq, curFilters, resolutionOrder})
 		}
-		return bestFilters + filters, append(bestOrder, wantedSubQuery)
+		sort.Slice(resolutions, func(i, j int) bool {
+			if resolutions[i].filters != resolutions[j].filters {
+				return resolutions[i].filters > resolutions[j].filters
+			}
+			return resolutions[i].subQuery < resolutions[j].subQuery
+		})
+		order := []string(nil)
+		ordered := map[string]struct{}{}
+		for _, r := range resolutions {
+			filters += r.filters
+			for _, sq := range r.order {
+				if _, ok := ordered[sq]; !ok {
+					ordered[sq] = struct{}{}
+					order = append(order, sq)
+				}
+			}
+		}
+		return filters, append(order, wantedSubQuery)
 	}
 	_, res := resolve("", nil)
 	return res
